@@ -279,6 +279,19 @@ def check_degenerate(pi, axis_i, angle_i, extra):
     dev = float(np.sqrt(((np.asarray(fitted, dtype=float)[sel] - allpts[sel]) ** 2).sum(axis=1).mean()))
     if dev > 2e-3:
         return f"{name}: rigid copy fitted with RMSD {dev:.5f} (axis {axis.tolist()}, angle {ang:.4f})"
+    # the transformation acts on coordinates, whatever container or dtype they come in (coord() accepts any of them):
+    # integer and float64 arrays, a stack-shaped array and an AtomArray give the same placement as the 4x4 matrix form
+    ipts = np.round(mobile * 3).astype(np.int64)
+    M = np.asarray(tr.as_matrix(), dtype=float).reshape(4, 4)
+    want = ipts.astype(float) @ M[:3, :3].T + M[:3, 3]
+    arr = struc.AtomArray(len(ipts))
+    arr.coord = ipts.astype(np.float32)
+    for label, got in (("int64 array", tr.apply(ipts)), ("int32 array", tr.apply(ipts.astype(np.int32))),
+                       ("float64 array", tr.apply(ipts.astype(np.float64))), ("float32 array", tr.apply(ipts.astype(np.float32))),
+                       ("(1, n, 3) int array", tr.apply(ipts[None])[0]), ("AtomArray", tr.apply(arr).coord)):
+        d = float(np.abs(np.asarray(got, dtype=float) - want).max())
+        if d > 1e-3 * max(1.0, float(np.abs(want).max())):
+            return f"{name}: apply() on {label} deviates by {d:.4f} from the matrix form (axis {axis.tolist()}, angle {ang:.4f})"
     rank = np.linalg.matrix_rank(fixed - fixed.mean(axis=0), tol=1e-6)
     if mask is not None and rank == 2:
         # planar anchors determine the proper rotation uniquely: the off-plane atom must come back to its place
